@@ -2347,8 +2347,87 @@ def c12_extract(ctx, ndir, files, alphabet=b"/.a"):
     ex.run_all(setup, body, on_path)
 
 
+def c12_positive(ctx, kind):
+    """the positive half at the level of file-system calls: for a benign entry /<x><y> (two symbolic letters) whose extraction succeeds, the calls
+    made are exactly the ones that create that entry at target+path with the archived content / permission bits / link target"""
+    import intrinsics3
+    from intrinsics3 import FsLog, ValIter, PathV
+    from symex import Opaque
+    extract = ctx.impl_fn("extract", None, "Package")
+    ex = Exec(ctx.funcs, intrinsics.I, max_steps=400000)
+    ctx.stats = ex.stats
+    ctx.bounds = ("Package::extract into \"/t\" of a package with one %s entry at /<x><y> (x, y symbolic letters), permission bits any 12 bits, 2 symbolic content bytes / link target of 2 symbolic letters; "
+                  "on the paths where extraction returns Ok the recorded file-system calls are compared with the entry" % kind)
+
+    def setup(e):
+        return dict(nm=sym_bytes(e, "n", 2, 0x61, 0x7a), perm=z3.BitVec("perm", 16), content=sym_bytes(e, "c", 2, 0, 255), link=sym_bytes(e, "l", 2, 0x61, 0x7a))
+
+    def body(e, inp):
+        e.solver.add(z3.ULE(inp["perm"], 0o7777))
+        intrinsics3.FS[0] = FsLog(b"/t")
+        hdr = header([index_entry(tag("RPMTAG_DIRNAMES"), index_data("StringArray", VecV([string(b"/")])), 0)], [])
+        pkg = package(header([], []), hdr, [])
+        mode = {"regular": Adt("FileMode", "Regular", [Int(inp["perm"], "u16")]), "dir": Adt("FileMode", "Dir", [Int(inp["perm"], "u16")]),
+                "symlink": Adt("FileMode", "SymbolicLink", [Int(inp["perm"], "u16")])}[kind]
+        path = [z3.BitVecVal(ord("/"), 8)] + list(inp["nm"])
+        fe = Adt("FileEntry", "FileEntry", [PathV(path), mode, Opaque("FileOwnership"), Opaque("Timestamp"), Int(2, "usize"), Opaque("FileFlags"), Adt("Option", "None"),
+                                            Adt("Option", "None"), string(inp["link"]), Adt("Option", "None")])
+        items = [Adt("Result", "Ok", [Adt("RpmFile", "RpmFile", [fe, byte_vec(inp["content"])])])]
+        e.overrides = {"package::Package::files": lambda ex_, a, f: Adt("Result", "Ok", [ValIter(items)]), "Package::files": lambda ex_, a, f: Adt("Result", "Ok", [ValIter(items)])}
+        r = e.call_fn(extract, [Ref(Cell(pkg)), Str.lit(b"/t")])
+        return r, intrinsics3.FS[0]
+
+    def on_path(e, inp, out):
+        k, v = out
+        if k != "return":
+            ctx.fail("extraction panics: %s" % (v,), "Package::extract", kind="c12panic", dir=b"/".hex(), files=[[kind, (b"/" + model_bytes(e, inp["nm"])).hex()]])
+            return
+        r, fs = v
+        ctx.cover("extraction succeeds", r.variant == "Ok")
+        if r.variant != "Ok":
+            return
+        want_path = [z3.BitVecVal(c, 8) for c in b"/t/"] + list(inp["nm"])
+
+        def at(p):
+            return len(p) == len(want_path) and not e._check(z3.Not(z3.And([x == y for x, y in zip(p, want_path)])))
+        ops = [o for o in fs.ops if at(o[1])]
+        names = [o[0] for o in ops]
+        bad = None
+        if kind == "regular":
+            if names[-3:] != ["create_file", "write", "set_permissions"]:
+                bad = "a regular file is not created, written and given its mode at target+path (calls there: %s)" % names
+            elif len(ops[-2][2]) != 2 or e._check(z3.Not(z3.And([x == y for x, y in zip(ops[-2][2], inp["content"])]))):
+                bad = "the bytes written are not the archived content"
+            elif ops[-1][2] is None or e._check(ops[-1][2].e != z3.ZeroExt(16, inp["perm"])):
+                bad = "the permission bits set are not the archived ones"
+        elif kind == "dir":
+            if names[-2:] != ["create_dir_all", "set_permissions"]:
+                bad = "a directory is not created and given its mode at target+path (calls there: %s)" % names
+            elif ops[-1][2] is None or e._check(ops[-1][2].e != z3.ZeroExt(16, inp["perm"])):
+                bad = "the permission bits set are not the archived ones"
+        else:
+            if not names or names[-1] != "symlink":
+                bad = "a symbolic link is not created at target+path (calls there: %s)" % names
+            elif len(ops[-1][2]) != 2 or e._check(z3.Not(z3.And([x == y for x, y in zip(ops[-1][2], inp["link"])]))):
+                bad = "the link target is not the archived one"
+        if bad:
+            ctx.fail("extraction succeeds but " + bad, "Package::extract", kind="c12positive", fkind=kind)
+
+    ex.run_all(setup, body, on_path)
+
+
+for _k in ("regular", "dir", "symlink"):
+    HARNESSES["c12_positive_" + _k] = (lambda k: (lambda ctx: c12_positive(ctx, k)))(_k)
+
+
 def replay_c12(ctx, fl):
     import rpmbytes as RB
+    if fl.get("kind") == "c12positive":
+        k = fl["fkind"]
+        pk = RB.files_package([b"/"], [(0, b"xy", {"regular": 0o104751, "dir": 0o041750, "symlink": 0o120777}[k], b"lk" if k == "symlink" else b"", b"AB" if k == "regular" else b"")])
+        ans = ctx.native.ask("extract", pk.hex())
+        want = {"regular": "xy:f:4751:4142", "dir": "xy:d:1750", "symlink": "xy:l:lk"}[k]
+        return not (ans.startswith("ok") and want in ans), "real crate: a %s entry /xy extracted into a scratch directory -> %s (expected %s)" % (k, ans[:120], want)
     modes = {"regular": 0o100644, "dir": 0o040700, "symlink": 0o120777, "special": 0o020644}
     d = bytes.fromhex(fl["dir"])
     outs = []
